@@ -297,7 +297,7 @@ pub fn run(ctx: &mut LaneCtx) {
     ctx.run_sub(
         SubSpec {
             name: "live-threads",
-            cases: (320, 30_000),
+            cases: (960, 30_000),
             rule: "generated targets (main + 1..63 threads: parked with sentinel registers, spinners with a register/stack/app-memory counter triple, sleepers, null-SP helpers, exiters cued at the threads-enumerated hook) dumped by the real writer; oracle = set of listed ids, per-register comparison with the sentinels, counter triple within one step; non-trivial = >=2 threads and a spinner, null-SP thread or vanished thread; distinct = hash of case",
             strategy: crate::props::fid::case_strategy(if ctx.tier == Tier::Quick { 20 } else { 64 }, 1).boxed(),
             max_shrink_iters: 150,
